@@ -177,6 +177,9 @@ def get_aggression_score(stats: Stats, verbose: bool = False) -> float:
         """
         Capturing early might favour quick attacks over slow positional play
         """
+        if stats.total_captures == 0:
+            return 0.0
+
         return (0.6 * stats.early_captures + 0.25 * stats.mid_captures + 0.15 * stats.late_captures) / stats.total_captures / 0.6
 
     def feature_capture_near_king(stats: Stats) -> float:
@@ -186,6 +189,9 @@ def get_aggression_score(stats: Stats, verbose: bool = False) -> float:
         weights: list[int] = [0, 8, 4, 2, 1, 0, 0, 0]
         score: float = sum(weights[dist] * frequency for dist, frequency in enumerate(stats.capture_distance))
         max_score: float = max(weights) * stats.total_captures
+        if max_score == 0:
+            return 0.0
+
         return score / max_score
 
     def feature_move_near_king(stats: Stats) -> float:
@@ -195,6 +201,9 @@ def get_aggression_score(stats: Stats, verbose: bool = False) -> float:
         weights: list[int] = [0, 8, 4, 2, 1, 0, 0, 0]
         score: float = sum(weights[dist] * frequency for dist, frequency in enumerate(stats.noncapture_distance))
         max_score: float = max(weights) * stats.total_noncaptures
+        if max_score == 0:
+            return 0.0
+
         return score / max_score
 
     def feature_castle_opposite(stats: Stats) -> float:
@@ -333,6 +342,9 @@ def get_positional_score(stats: Stats, verbose: bool = False) -> float:
         """
         Capturing early means less pieces to manoeuvre with
         """
+        if stats.total_captures == 0:
+            return 0.0
+
         return (0.6 * stats.late_captures + 0.25 * stats.mid_captures + 0.15 * stats.early_captures) / stats.total_captures / 0.6
 
     if stats.num_games == 0:
